@@ -846,26 +846,48 @@ func ruleTAB3(w *World) []Ob {
 		}
 		var problems []string
 		nCreate := 0
-		allInstrs(mf, func(in ssa.Instruction) {
-			c, ok := in.(*ssa.Call)
-			if !ok || c.Common().StaticCallee() == nil || c.Common().StaticCallee() == mf {
-				return
-			}
-			callee := c.Common().StaticCallee()
-			isFileSide := ""
-			for _, g := range guardsOf(c.Block()) {
-				cd, pol := flattenCond(g.Cond, g.Pol)
-				if cc, ok := cd.(*ssa.Call); ok && cc.Common().StaticCallee() == fn {
-					isFileSide = fmt.Sprint(pol)
+		// the functions the mkdirer's work is spread over; those that ask isFile decide the kind
+		fam := reachableFrom(p, []*ssa.Function{mf}, func(f *ssa.Function) bool { return recvTypeName(f) == "Node" || f == fn })
+		guards := map[*ssa.Function]bool{}
+		for f := range fam {
+			allInstrs(f, func(in ssa.Instruction) {
+				if c, ok := in.(*ssa.Call); ok && c.Common().StaticCallee() == fn {
+					guards[f] = true
 				}
-			}
-			if reach(callee, "os.Create") {
+			})
+		}
+		var famList []*ssa.Function
+		for f := range fam {
+			famList = append(famList, f)
+		}
+		sort.Slice(famList, func(i, j int) bool { return p.FuncID(famList[i]) < p.FuncID(famList[j]) })
+		for _, f := range famList {
+			f := f
+			allInstrs(f, func(in ssa.Instruction) {
+				c, ok := in.(*ssa.Call)
+				if !ok || c.Common().StaticCallee() == nil {
+					return
+				}
+				callee := c.Common().StaticCallee()
+				if callee == f || callee == mf || guards[callee] || !p.InModule(callee) {
+					return // recursion and kind-deciding functions are judged in their own bodies
+				}
+				if !reach(callee, "os.Create") {
+					return
+				}
+				isFileSide := ""
+				for _, g := range guardsOf(c.Block()) {
+					cd, pol := flattenCond(g.Cond, g.Pol)
+					if cc, ok := cd.(*ssa.Call); ok && cc.Common().StaticCallee() == fn {
+						isFileSide = fmt.Sprint(pol)
+					}
+				}
 				nCreate++
 				if isFileSide != "true" {
 					problems = append(problems, "a file is created at "+p.InstrPos(c)+" outside the isFile side")
 				}
-			}
-		})
+			})
+		}
 		if nCreate == 0 {
 			problems = append(problems, "no file creation on the isFile side")
 		}
